@@ -37,7 +37,7 @@ GenStep ==
   \/ RPreempted /\ H([op |-> "rpreempted"])
   \/ RExpire /\ H([op |-> "rexpire"])
   \/ RDelete /\ H([op |-> "rdelete"])
-  \/ \E w \in {"other", "same"} : RBind(w) /\ H([op |-> "rbind", who |-> w])
+  \/ \E w \in {"other", "same", "gone"} : RBind(w) /\ H([op |-> "rbind", who |-> w])
   \/ Rare /\ (Focus => job.cEvict = "False:Evicting") /\ PodDelete /\ H([op |-> "poddelete"])
   \/ ~Focus /\ PodReady /\ H([op |-> "podready"])
   \/ ~Focus /\ Rare /\ \E n \in Nodes, rdy \in BOOLEAN : PodReplace(n, rdy) /\ H([op |-> "podreplace", node |-> n, ready |-> rdy])
